@@ -4,15 +4,17 @@ EXTENDS NixModel
 
 L(b, g, a, t, m, f, so, se, p) ==
     [block |-> b, group |-> g, array |-> a, tag |-> t, mtag |-> m, feature |-> f,
-     source |-> so, section |-> se, property |-> p]
+     source |-> so, section |-> se, property |-> p, frame |-> 0]
+\* ... with data frames
+LF(lim, fr) == [lim EXCEPT !.frame = fr]
 
-Limit_C03  == L(2, 1, 2, 1, 0, 0, 2, 2, 1)
-Limit_C04  == L(2, 1, 2, 1, 1, 1, 2, 2, 1)
-Limit_Sim  == L(3, 2, 3, 2, 2, 2, 3, 3, 2)
+Limit_C03  == LF(L(2, 1, 2, 1, 0, 0, 2, 2, 1), 1)
+Limit_C04  == LF(L(2, 1, 2, 1, 1, 1, 2, 2, 1), 1)
+Limit_Sim  == LF(L(3, 2, 3, 2, 2, 2, 3, 3, 2), 2)
 Limit_C13  == L(1, 0, 1, 0, 0, 0, 5, 5, 0)
 Limit_C19  == L(1, 1, 1, 1, 1, 1, 1, 1, 1)
 
-AllFaults == { "DuplicateName", "BadName", "NoneType", "WrongKind", "ForeignBlock", "NotMember", "Required", "NotFound" }
+AllFaults == { "DuplicateName", "BadName", "NoneType", "WrongKind", "ForeignBlock", "NotMember", "Required", "NotFound", "BadLinkType" }
 NoScript == << >>
 
 Cr(k, p, n, new) == [name |-> "Create", kind |-> k, owner |-> p, n |-> n, t |-> 1, new |-> new, out |-> "ok"]
@@ -46,6 +48,12 @@ Script_Copy == <<
     [name |-> "CreateProperty", owner |-> 11, n |-> "n1", v |-> 1, new |-> 12, out |-> "ok"],
     Cr("block", 0, "n2", 13) >>
 Limit_Copy == L(3, 2, 4, 2, 2, 2, 4, 4, 2)
+\* ... with an id-keeping duplicate of array n2 inside the block (two entities, one id), then every single call -
+\* among them the fresh-id copy of the whole block, whose link lists must follow each member's own new id
+Limit_CopyDup == L(3, 2, 6, 2, 2, 2, 4, 4, 2)
+Script_CopyDup == Script_Copy \o <<
+    [name |-> "Copy", kind |-> "array", src |-> 3, dest |-> 1, n |-> "n3", keep |-> TRUE, new |-> 14, out |-> "ok"],
+    LA(4, "data_arrays", 14) >>
 \* ... followed by a copy of the whole block (fresh ids) and of the section tree: every single mutation of either side
 Script_Copied == Script_Copy \o <<
     [name |-> "Copy", kind |-> "block", src |-> 1, dest |-> 0, n |-> "n3", keep |-> FALSE, new |-> 14, out |-> "ok"],
